@@ -8,7 +8,7 @@ LEVEL = 'exploration'
 RULE = ('differential monitor: the same (base, queries, mode) under every selectable pmaxsat_solver value: z3, '
         'rc2, rc2-<engine> for every PySAT engine that a calibration in one-shot subprocesses shows RC2 can drive '
         'on this image (quick: 6 representatives, thorough: all), plus upper-case spellings. System W and lex_inf: '
-        'all answers equal; c-inference: equal across rc2 engines. Small generated bases in both modes, corpus '
+        'all answers equal; c-inference: equal across rc2 engines. The witness corpus (vf/witness.py), small generated bases in both modes, corpus '
         'and union bases up to 40 atoms. Non-trivial = small base: A&B and A&!B both feasible; large base: row '
         'of a batch in which some answer is True; distinct by hash(base, query, system, mode).')
 ASSUMPTIONS = ['an exception raised from inside PySAT (RC2 or the SAT engine) under an explicitly named engine is an engine failure, counted and not judged (observed rarely with mcb)',
@@ -39,7 +39,10 @@ def cases(tier, seed):
     big = [c for c in out if c['kind'] in ('corpus', 'union')]
     head = big[:100]
     hs = {id(c) for c in head}
-    return head + [c for c in out if id(c) not in hs]
+    from .. import witness
+    wit = [{'prop': ID, 'seed': seed, 'idx': 10 ** 6 + i, 'kind': 'witness', 'witness': i, 'engines': eng,
+            'unusable': bad, 'tier': tier} for i in range(len(witness.WITNESSES))]
+    return wit + head + [c for c in out if id(c) not in hs]
 
 
 def run_case(case):
@@ -57,7 +60,22 @@ def run_case(case):
     weakly = False
     src = kind
     small = kind.startswith('small')
-    if kind == 'small-strict':
+    if kind == 'witness':
+        # the hand-built corpus of delicate inputs (vf/witness.py) with its own and generated tie-forcing queries
+        from .. import witness
+        from parser.Wrappers import parse_belief_base, parse_queries
+        name, sigt, rules, qtexts, extended_only = witness.WITNESSES[case['witness']]
+        bb0 = parse_belief_base(witness.text(sigt, rules))
+        sig = list(bb0.signature)
+        conds = [(fml.from_pysmt(c.consequence), fml.from_pysmt(c.antecedence)) for c in bb0.conditionals.values()]
+        qs = [(fml.from_pysmt(c.consequence), fml.from_pysmt(c.antecedence))
+              for c in parse_queries(','.join(qtexts)).conditionals.values()]
+        if len(sig) <= 7:
+            qs += gen.gen_queries(rng, sig, conds, 4, p_tie=0.8, extra_atom_p=0.0)
+        weakly = extended_only or rng.random() < 0.5
+        src = 'witness:' + name
+        small = len(sig) <= 7
+    elif kind == 'small-strict':
         sig, conds, _ = gen.gen_base(rng, 'strong')
         qs = gen.gen_queries(rng, sig, conds, 8)
     elif kind == 'small-ext':
